@@ -134,18 +134,31 @@ func (g *gen) mapValue(parent pref.Message, fd pref.FieldDescriptor, depth int) 
 var unknownNums = []protowire.Number{1000, 1001, 1002}
 
 func (g *gen) unknownRecord() []byte {
-	num := unknownNums[g.r.Intn(len(unknownNums))]
+	return g.unknownRecordOf(unknownNums[g.r.Intn(len(unknownNums))])
+}
+
+// unknownRecordOf: one wire record of field number num: varint, bytes, fixed32, fixed64 or a group
+// (small values, so that equal lengths and equal records are frequent).
+func (g *gen) unknownRecordOf(num protowire.Number) []byte {
 	var b []byte
-	switch g.r.Intn(3) {
-	case 0:
+	switch g.r.Intn(9) {
+	case 0, 1, 2:
 		b = protowire.AppendTag(b, num, protowire.VarintType)
-		b = protowire.AppendVarint(b, uint64(g.r.Intn(3)))
-	case 1:
+		b = protowire.AppendVarint(b, uint64(g.r.Intn(4)))
+	case 3, 4:
 		b = protowire.AppendTag(b, num, protowire.BytesType)
 		b = protowire.AppendBytes(b, []byte(stringDomain[g.r.Intn(3)]))
-	default:
+	case 5, 6:
 		b = protowire.AppendTag(b, num, protowire.Fixed32Type)
-		b = protowire.AppendFixed32(b, uint32(g.r.Intn(2)))
+		b = protowire.AppendFixed32(b, uint32(g.r.Intn(3)))
+	case 7:
+		b = protowire.AppendTag(b, num, protowire.Fixed64Type)
+		b = protowire.AppendFixed64(b, uint64(g.r.Intn(2)))
+	default:
+		b = protowire.AppendTag(b, num, protowire.StartGroupType)
+		b = protowire.AppendTag(b, 1, protowire.VarintType)
+		b = protowire.AppendVarint(b, uint64(g.r.Intn(3)))
+		b = protowire.AppendTag(b, num, protowire.EndGroupType)
 	}
 	return b
 }
@@ -187,9 +200,9 @@ func (g *gen) populate(m pref.Message, depth int) {
 			m.Set(fd, g.value(m, fd, depth))
 		}
 	}
-	if !g.noUnknown && g.r.Intn(6) == 0 {
+	if !g.noUnknown && g.r.Intn(4) == 0 {
 		var u []byte
-		for n := g.r.Intn(3) + 1; n > 0; n-- {
+		for n := g.r.Intn(4) + 1; n > 0; n-- {
 			u = append(u, g.unknownRecord()...)
 		}
 		m.SetUnknown(u)
@@ -321,6 +334,18 @@ func (g *gen) mutate(root pref.Message, depth int) string {
 	for s.fd == nil && g.noUnknown {
 		s = ss[g.r.Intn(len(ss))]
 	}
+	if !g.noUnknown && g.r.Intn(6) == 0 {
+		// the unknown fields of some message of the tree, preferring one that has some
+		var us []site
+		for _, c := range ss {
+			if c.fd == nil && (len(c.m.GetUnknown()) > 0 || g.r.Intn(4) == 0) {
+				us = append(us, c)
+			}
+		}
+		if len(us) > 0 {
+			s = us[g.r.Intn(len(us))]
+		}
+	}
 	m, fd := s.m, s.fd
 	if fd == nil {
 		return g.mutateUnknown(m)
@@ -451,7 +476,7 @@ func splitUnknown(b []byte) [][]byte {
 func (g *gen) mutateUnknown(m pref.Message) string {
 	recs := splitUnknown(append([]byte(nil), m.GetUnknown()...))
 	label := ""
-	switch op := g.r.Intn(4); {
+	switch op := g.r.Intn(8); {
 	case op == 0 || len(recs) == 0:
 		recs = append(recs, g.unknownRecord())
 		label = "unknown-append"
@@ -461,6 +486,27 @@ func (g *gen) mutateUnknown(m pref.Message) string {
 	case op == 2 && len(recs) >= 2:
 		recs[0], recs[len(recs)-1] = recs[len(recs)-1], recs[0]
 		label = "unknown-swap"
+	case op == 3 && len(recs) >= 2:
+		i := g.r.Intn(len(recs) - 1)
+		recs[i], recs[i+1] = recs[i+1], recs[i]
+		label = "unknown-swap-adjacent"
+	case op == 4:
+		// another occurrence of a number that is already there, inserted anywhere
+		num, _, _ := protowire.ConsumeField(recs[g.r.Intn(len(recs))])
+		i := g.r.Intn(len(recs) + 1)
+		recs = append(recs[:i:i], append([][]byte{g.unknownRecordOf(num)}, recs[i:]...)...)
+		label = "unknown-repeat-number"
+	case op == 5 || op == 6:
+		// same number, same length, other content (any occurrence, not only the last one)
+		i := g.r.Intn(len(recs))
+		num, _, _ := protowire.ConsumeField(recs[i])
+		for try := 0; try < 8; try++ {
+			if r := g.unknownRecordOf(num); len(r) == len(recs[i]) {
+				recs[i] = r
+				break
+			}
+		}
+		label = "unknown-replace-same-length"
 	default:
 		recs[g.r.Intn(len(recs))] = g.unknownRecord()
 		label = "unknown-replace"
